@@ -26,15 +26,15 @@ FINDINGS on the unchanged tree (both genuine, see families):
 Families carry a ``[total_area-only]`` / ``[total_leak-only]`` suffix when a pattern hits
 only one of the two quantities of a component (then it is a different bug).
 
-PROPOSED PATCH (applied to the scratch copy: check silent on all 15575 quick configurations,
+PROPOSED PATCH (applied to the scratch copy: check silent on all quick configurations (15575 then),
 repo tests test_api_gaps/test_component_fields/test_arch_flattening/test_spec: 200 passed)
   spec.py:255         global_fanout = 1            ->  global_fanout = leaf.get_fanout()
   structure.py:123-125  `_parents.append(self)`    ->  only `if not isinstance(self, Compute)`
 
 SELFTEST (scratch copy /tmp/af-mut-c26 = accelforge/ + the proposed patch, so that the
 baseline is silent; VERIF_REPO, quick tier; copy deleted afterwards)
-  M0 the unchanged tree itself (= patch reverted)                       caught  own-fanout-ignored (8278),
-                                                                                own-fanout-ignored+sibling-compute-fanout-counted (2660)
+  M0 the unchanged tree itself (= patch reverted)                       caught  own-fanout-ignored (8426),
+                                                                                own-fanout-ignored+sibling-compute-fanout-counted (2683)
   M1 structure.py:iterate_hierarchically  Fork no longer copies _parents caught  unexplained (688), sibling-compute-fanout-counted (8)
   M2 spec.py  total_leak_power = c.leak_power (fanout dropped for leak)  caught  11574 cfgs (own-fanout-ignored where the values coincide,
                                                                                  unexplained elsewhere; now suffixed [total_leak-only])
